@@ -5,7 +5,7 @@ from . import C13
 
 META = {
     "level": "other",
-    "explanation": "Necessary structural conditions for build-after-parse to be accepted, canonical and idempotent (the thinnest claim of the set; idempotence itself is not decided): (R1) decode->encode closure: every form a decoder can return is accepted by a branch of its encoder -- Enum returns a table value (the very objects that key the encode table) or EnumInteger (an int, passed through), FlagsEnum returns a dict whose non-underscore keys are exactly the flag names its dict branch ORs back and whose flag test is `all bits of the mask present`, Mapping's tables are inverse, Flag returns a bool and builds one of two constants by truthiness, Hex/HexDump encode is the identity; (R2) private-key discipline: every fixed key that a parse-side method injects into a result container starts with '_', FlagsEnum._encode skips '_' keys, and Struct/Union/LazyStruct._build read the supplied object only under member names, so extra keys are ignored; (R3) Select builds alternatives in the order it parses them and Optional is Select(subcon, Pass); (R4) regenerated filler is parameter-only: the bytes that _build of Padded, Aligned, FixedSized, NullTerminated and Prefixed write besides the inner construct's output are terms over constructor parameters, computed lengths and constants -- never derived from the supplied object, time or randomness. (R5) a wrapper's _build hands the inner construct a constructor-supplied replacement instead of the object only when the object is None (Default, RawCopy) or equals it (Const); Rebuild is frozen as recomputed by design; (R6) the transforming macros decode and encode with an inverse pair over matching units (C10.R1/R2). (R7) every integer bits2integer/bytes2integer can return is accepted by integer2bits/integer2bytes: reference forms and exact two's-complement range of the helpers (shared with C10.R5). (R8) the encoders whose output the decoders must read back, shared: canonical LEB128 and ZigZag forms (C03.R7), terminator unit table (C03.R2), XOR/rotation/codec inversion structure (C15.R1/R2/R4). (R9) the generated code of the classes that regenerate filler, defaults and labels agrees with the interpreter (shared with C04.R3/R7).",
+    "explanation": "Necessary structural conditions for build-after-parse to be accepted, canonical and idempotent (the thinnest claim of the set; idempotence itself is not decided): (R1) decode->encode closure: every form a decoder can return is accepted by a branch of its encoder -- Enum returns a table value (the very objects that key the encode table) or EnumInteger (an int, passed through), FlagsEnum returns a dict whose non-underscore keys are exactly the flag names its dict branch ORs back and whose flag test is `all bits of the mask present`, Mapping's tables are inverse, Flag returns a bool and builds one of two constants by truthiness, Hex/HexDump encode is the identity; (R2) private-key discipline: every fixed key that a parse-side method injects into a result container starts with '_', FlagsEnum._encode skips '_' keys, and Struct/Union/LazyStruct._build read the supplied object only under member names, so extra keys are ignored; (R3) Select builds alternatives in the order it parses them and Optional is Select(subcon, Pass); (R4) regenerated filler is parameter-only: the bytes that _build of Padded, Aligned, FixedSized, NullTerminated and Prefixed write besides the inner construct's output are terms over constructor parameters, computed lengths and constants -- never derived from the supplied object, time or randomness. (R5) a wrapper's _build hands the inner construct a constructor-supplied replacement instead of the object only when the object is None (Default, RawCopy) or equals it (Const); Rebuild is frozen as recomputed by design; (R6) the transforming macros decode and encode with an inverse pair over matching units (C10.R1/R2). (R7) every integer bits2integer/bytes2integer can return is accepted by integer2bits/integer2bytes: reference forms and exact two's-complement range of the helpers (shared with C10.R5). (R8) the encoders whose output the decoders must read back, shared: canonical LEB128 and ZigZag forms (C03.R7), terminator unit table (C03.R2), XOR/rotation/codec inversion structure (C15.R1/R2/R4). (R9) the generated code of the classes that regenerate filler, defaults and labels agrees with the interpreter (shared with C04.R3/R7). (R10) the stream helpers accept on build what they hand out on parse (shared with C06.R2); (R11) guard and amount agreement of _parse/_build (shared with C01.R2/R3) and the close conditions of the bit-level stream (C10.R4).",
     "undecided": "Idempotence and canonicity as such, non-canonical inputs (non-minimal VarInts, arbitrary padding), the gallery formats: value-level, left to dynamic techniques.",
     "trusted_base": ["python ast (3.12)", "sa.summ summariser", "class hierarchy of the model (EnumInteger < int, Container < dict)"],
     "assumptions": [],
@@ -217,6 +217,19 @@ def run(ctx):
     # (exact non-negative lengths on both sides; bytes *and its subclasses*, which Hex/HexDump return)
     from . import C06
     C06.helper_checks(ctx, "C02.R10")
+    # ---------------------------------------------------------------- R11 what parse accepts, build accepts: the configuration guards and the stream amounts of
+    # _parse and _build agree class by class (shared with C01.R2/R3), and the bit-level stream closes under the same conditions on both sides (C10.R4)
+    from . import C01, C10
+    for mod, rules in ((C01, ("C01.R2", "C01.R3")), (C10, ("C10.R4",))):
+        sub = _Ctx(mod.__name__.split(".")[-1], ctx.tier, ctx.root, model=ctx.model)
+        sub._summ = summariser(ctx)
+        mod.run(sub)
+        for e in sub.errors:
+            ctx.error("shared %s rules: %s" % (sub.prop, e))
+        for o in sub.obligations:
+            if o.rule in rules:
+                ctx.ob("C02.R11", o.where, o.ok, o.what, key=o.key, loc=o.loc, detail=o.detail)
+    ctx.floor("C02.R11", 70)
 
     ctl = control_model(
         "class Construct(object):\n    pass\nclass Subconstruct(Construct):\n    pass\n"
